@@ -4,7 +4,7 @@
 
 use snow::{
     params::{CipherChoice, DHChoice, HashChoice},
-    resolvers::{BoxedCryptoResolver, CryptoResolver, DefaultResolver, FallbackResolver, RingResolver},
+    resolvers::{BoxedCryptoResolver, CryptoResolver, DefaultResolver, FallbackResolver},
     types::{Cipher, Dh, Hash, Random},
     Error,
 };
@@ -384,12 +384,14 @@ pub fn dh_sel(c: &DHChoice) -> usize {
     match c {
         DHChoice::Curve25519 => 0,
         DHChoice::Curve448 => 1,
+        #[cfg(feature = "full")]
         DHChoice::P256 => 2,
     }
 }
 pub fn cipher_sel(c: &CipherChoice) -> usize {
     match c {
         CipherChoice::ChaChaPoly => 0,
+        #[cfg(feature = "full")]
         CipherChoice::XChaChaPoly => 1,
         CipherChoice::AESGCM => 2,
     }
@@ -473,7 +475,10 @@ pub fn resolver_from_expr(e: &str) -> Option<BoxedCryptoResolver> {
         "mark1" => Some(Box::new(ToyResolver { rng: true, dh: true, cipher: true, hash: true, mark: 1 })),
         "mark2" => Some(Box::new(ToyResolver { rng: true, dh: true, cipher: true, hash: true, mark: 2 })),
         "default" => Some(Box::new(DefaultResolver)),
-        "ring" => Some(Box::new(RingResolver)),
+        #[cfg(feature = "full")]
+        "ring" => Some(Box::new(snow::resolvers::RingResolver)),
+        #[cfg(not(feature = "full"))]
+        "ring" => None,
         _ => {
             let inner = e.strip_prefix("fb(")?.strip_suffix(')')?;
             // split at the top-level comma
